@@ -281,6 +281,63 @@ def case_repartition(ctx, inp):
         ctx.branch("api-partition-size")
 
 
+def case_iter_chunks(ctx, inp):
+    """function level: dask.utils.iter_chunks (chunk lengths) vs the model, and the facts repartition_size_rows needs"""
+    from dask.utils import iter_chunks
+    sizes, mx = inp["sizes"], inp["max"]
+    try:
+        impl = [Sym("ok"), [len(c) for c in iter_chunks(sizes, mx)]]
+    except AssertionError:
+        impl = [Sym("raised")]
+    ctx.eq("iter_chunks lengths", ctx.lean(Sym("iter-chunks"), sizes, mx), impl)
+    if impl[0] == "ok":
+        if sum(impl[1]) != len(sizes) or any(x <= 0 for x in impl[1]):
+            ctx.fail("iter_chunks: chunk lengths do not cover the sizes exactly once / an empty chunk", observed=impl[1])
+        ctx.branch("iter-chunks-" + ("one" if len(impl[1]) <= 1 else "many"))
+    else:
+        ctx.branch("iter-chunks-too-big")
+
+
+def case_repart_size(ctx, inp):
+    """RepartitionSize: _nsplits / _partition_boundaries of the REAL expression (memory usage is measured by pandas:
+    an input) vs the model; the partitions of the graph vs the Lean evaluation of the layer on the same nsplits /
+    chunk lengths (repartition_size_rows: rows, order, one partition per chunk)"""
+    import dask
+    from dask.dataframe.dask_expr._repartition import RepartitionSize
+    keys, size = inp["parts"], inp["size"]
+    d = U.frame_from_parts(keys, divisions=None)
+    nrows = sum(len(k) for k in keys)
+    with dask.config.set(scheduler="sync"):
+        r = d.repartition(partition_size=size)
+        e = r.expr.lower_once({})
+        if not isinstance(e, RepartitionSize):
+            ctx.note("repartition-size-not-lowered-to-RepartitionSize")
+            return
+        usages = [int(x) for x in e._mem_usage]
+        ks = [int(x) for x in e._nsplits]
+        bs = [int(x) for x in e._partition_boundaries]
+        parts = U.partitions(r)
+    ctx.eq("RepartitionSize._nsplits", ctx.lean(Sym("size-nsplits"), usages, size), [Sym("ok"), ks])
+    lens = [b - a for a, b in zip(bs, bs[1:])]
+    if bs[0] != 0 or any(x <= 0 for x in lens) or bs[-1] != sum(ks):
+        ctx.fail("RepartitionSize boundaries: not 0 < ... < number of pieces", observed=[bs, ks])
+    if all(k == 1 for k in ks):
+        ctx.branch("size-concat-only")
+        ctx.eq("RepartitionSize chunk lengths = iter_chunks(mem usages)", ctx.lean(Sym("iter-chunks"), usages, size), [Sym("ok"), lens])
+    else:
+        ctx.branch("size-split")
+    ids = _ids(parts)
+    ctx.eq("RepartitionSize partitions", ctx.lean(Sym("repart-size"), [len(k) for k in keys], ks, lens), [Sym("ok"), ids])
+    if [v for p in ids for v in p] != list(range(nrows)):
+        ctx.fail("repartition(partition_size) does not keep the rows in order", observed=ids)
+    if len(parts) != len(lens) or r.npartitions != len(parts):
+        ctx.fail("repartition(partition_size): npartitions / chunks / graph disagree", observed=[r.npartitions, len(parts), lens])
+    if len(parts) < len(keys):
+        ctx.branch("size-fewer")
+    elif len(parts) > len(keys):
+        ctx.branch("size-more")
+
+
 def case_from_pandas(ctx, inp):
     """from_pandas with npartitions / chunksize keeps exactly the same rows (in order when sort=False or the
     index is already sorted; in index order otherwise)"""
@@ -320,7 +377,7 @@ def case_from_pandas(ctx, inp):
 
 CASES = {"tofewer_bounds": case_tofewer_bounds, "split_evenly": case_split_evenly, "nsplits": case_nsplits,
          "div_layer": case_div_layer, "boundary_slice": case_boundary_slice, "repartition": case_repartition,
-         "from_pandas": case_from_pandas}
+         "from_pandas": case_from_pandas, "iter_chunks": case_iter_chunks, "repart_size": case_repart_size}
 
 
 def _rand_new_divs(rng, a, force):
@@ -372,6 +429,21 @@ def generate(ctx):
         a = U.rand_divisions(rng, rng.randint(1, 6), 0, rng.choice([6, 12, 30]))
         force = rng.random() < 0.35
         yield "div_layer", {"a": a, "b": _rand_new_divs(rng, a, force), "force": force}
+    if ctx.thorough():
+        # exhaustive small space for the divisions walk and its certificate: every legal division vector over 0..4
+        # (strictly increasing, optionally with a repeated last entry) as old AND as new divisions, force on/off
+        import itertools
+        vecs = []
+        for k in (2, 3, 4):
+            for comb in itertools.combinations(range(5), k):
+                vecs.append(list(comb))
+        for k in (1, 2, 3):
+            for comb in itertools.combinations(range(5), k):
+                vecs.append(list(comb) + [comb[-1]])
+        for a in vecs:
+            for b in vecs:
+                for force in (False, True):
+                    yield "div_layer", {"a": a, "b": b, "force": force}
     for _ in range(ctx.n(150, 2600)):
         nparts = rng.randint(1, 6)
         if rng.random() < 0.75:
@@ -393,6 +465,15 @@ def generate(ctx):
         else:
             op = {"partition_size": rng.choice([8, 40, 100, 1000])}
         yield "repartition", {"parts": keys, "divs": divs, "op": op}
+    for _ in range(ctx.n(150, 2000)):
+        mx = rng.choice([1, 5, 10, 100])
+        sizes = [rng.randint(0, mx + (1 if rng.random() < 0.05 else 0)) for _ in range(rng.randint(0, 12))]
+        yield "iter_chunks", {"sizes": sizes, "max": mx}
+    for _ in range(ctx.n(40, 500)):
+        nparts = rng.randint(1, 6)
+        keys = [sorted(rng.randint(0, 30) for _ in range(rng.choice([0, 1, 2, 5, 12, 30]))) for _ in range(nparts)]
+        # 16 bytes per row (int64 index + int64 column): sizes around one row … several partitions
+        yield "repart_size", {"parts": keys, "size": rng.choice([8, 16, 33, 64, 100, 200, 500, 2000])}
     # partition counts whose ratio is not exactly representable (15->11, 26->23, 30->11 ...): API level
     hard = [(o, n) for o in range(2, 41) for n in range(1, o) if int(n * (o / n)) != o or [int(i * (o / n)) for i in range(n + 1)] != [i * o // n for i in range(n + 1)]]
     picks = hard if ctx.thorough() else rng.sample(hard, min(len(hard), 12))
